@@ -57,7 +57,9 @@ def peer_strategy(dll=None, roles=("orig", "resp"), modes=("rts", "rts", "bam"),
         # the peer's free choices, all inside the standard's envelope
         peer = {"grants": draw(st.lists(st.one_of(st.sampled_from([1, 1, 2, 3, 255]), st.integers(1, 255)), min_size=1, max_size=4)),
                 "holds": draw(st.lists(st.sampled_from([0, 0, 0, 1, 2, 3]), min_size=1, max_size=3)),
-                "hold_gap": draw(st.sampled_from([0.1, 0.2, 0.3, 0.45, 0.49])),
+                "hold_gap": draw(st.sampled_from([0.1, 0.2, 0.3, 0.45, 0.49, 0.499])),
+                # grant indices at which the responder asks for the previous window again (retransmission request)
+                "rereq": draw(st.sampled_from([[], [], [], [1], [2], [1, 2], [1, 3]])),
                 "reply_lat": draw(st.lists(st.sampled_from([0.0002, 0.001, 0.005, 0.02, 0.05, 0.1, 0.15]), min_size=1, max_size=3)),
                 "limit": draw(st.one_of(st.sampled_from([1, 2, 3, 16, 255]), st.integers(1, 255))),
                 "dt_gap": draw(st.sampled_from([0.0, 0.0002, 0.001, 0.005, 0.02, 0.05, 0.1, 0.19])),
@@ -124,6 +126,7 @@ def run(p):
             s2 = None
             peer = RefPeer(w.bus, "P", SA_P, fd=fd, grants=peer_cfg["grants"], holds=peer_cfg["holds"],
                            reply_lat=peer_cfg["reply_lat"], hold_gap=peer_cfg["hold_gap"])
+            peer.rereq = list(peer_cfg.get("rereq", []))
         data = W.make_payload(p["pl"])
         n = packets_of(p)
         pgn = expected_pgn(p)
@@ -159,7 +162,7 @@ def run(p):
             if p["mode"] == "rts":
                 per = max(peer_cfg["reply_lat"]) + 2 * maxlat + (p["rts_dt"] or 0) + 0.003 + 2 * p.get("tx_time", 0.0)
                 holds = max(peer_cfg["holds"]) * peer_cfg["hold_gap"]
-                windows = n   # worst case window 1
+                windows = n * (1 + len(peer_cfg.get("rereq", [])))   # worst case window 1; re-requested windows are sent again
                 horizon = 0.05 + windows * (per + holds) + 2.0
                 if holds:
                     horizon = min(horizon, 0.05 + n * per + min(n, 200) * holds + 2.0)
